@@ -122,16 +122,18 @@ impl Shared {
   }
 
   pub fn new_timer(self: &Arc<Self>, dur: Duration) -> SimTimer {
+    if self.stats.timers_created.fetch_add(1, SeqCst) > 2_000_000 {
+      // library code is spinning without ever yielding to the executor
+      // (checked before any lock is taken: a panic must not poison the heap)
+      std::panic::panic_any(SimAbort::WouldHang);
+    }
     let deadline = self.now().saturating_add(dur.as_nanos() as u64);
     let cell = Arc::new(TimerCell { deadline, waker: Mutex::new(None) });
     let mut th = self.timers.lock().unwrap();
     let seq = th.next_seq;
     th.next_seq += 1;
     th.heap.push(TimerEntry { deadline, seq, cell: Arc::downgrade(&cell) });
-    if self.stats.timers_created.fetch_add(1, SeqCst) > 200_000 {
-      // library code is spinning without ever yielding to the executor
-      std::panic::panic_any(SimAbort::WouldHang);
-    }
+    drop(th);
     SimTimer { cell, shared: self.clone() }
   }
 
